@@ -1566,3 +1566,29 @@ Lemma boxcox_continuity_summary : forall x,
 Proof.
   exact (fun x => conj (boxcox_continuous_at_zero x) (conj (bc_value_zero x) (boxcox_value_limit x))).
 Qed.
+
+(* ------------------------------------------------------------------ regression, any sign of sigma
+   Only sigma^2 enters the documented form: for every sigma <> 0 (a negative value is legitimate:
+   sigma is usually an unbounded parameter) the tree is the normal log density with scale |sigma|. *)
+Lemma regression_expr_abs : forall y m s, s <> 0 ->
+  - ((y - m) / s) ^ 2 / 2 - ln (s ^ 2) / 2 - k_halflog2pi
+  = - ((y - m) / Rabs s) ^ 2 / 2 - ln (Rabs s ^ 2) / 2 - k_halflog2pi.
+Proof.
+  intros y m s Hs. assert (A : Rabs s <> 0) by (apply Rabs_no_R0; assumption).
+  assert (Q : Rabs s ^ 2 = s ^ 2) by (rewrite RPow_abs; apply Rabs_pos_eq, pow2_ge_0).
+  replace (((y - m) / Rabs s) ^ 2) with ((y - m) ^ 2 / Rabs s ^ 2) by (field; assumption).
+  rewrite Q. f_equal. f_equal. f_equal. f_equal. field. assumption.
+Qed.
+
+Lemma regression_normal_anysign : forall Phi en meas model sigma vy vm vs,
+  evalX Phi meas en = XR vy -> evalX Phi model en = XR vm -> evalX Phi sigma en = XR vs -> vs <> 0 ->
+  exists r, evalX Phi (loglikelihoodregression meas model sigma) en = XR r /\
+            evalX Phi (likelihoodregression meas model sigma) en = XR (exp r) /\
+            Rabs (r - ln (normal_density vm (Rabs vs) vy)) <= 1 / 10 ^ 11.
+Proof.
+  intros Phi en meas model sigma vy vm vs Hy Hm Hs NZ. eexists.
+  split; [exact (regression_tree Phi en meas model sigma vy vm vs Hy Hm Hs NZ)|].
+  split; [exact (likelihoodregression_tree Phi en meas model sigma vy vm vs Hy Hm Hs NZ)|].
+  rewrite regression_expr_abs by assumption.
+  apply regression_is_normal_logdensity. apply Rabs_pos_lt; assumption.
+Qed.
